@@ -19,6 +19,9 @@ R1(b) entry points that edit a buffer whose text stays live (yyunput, yyinput, t
      ends, yy_switch_to_buffer, yypush_buffer_state): a restore dominates every other access to buffer bytes and every
      store of the saved position (yy_buf_pos); every path from a restore to a return that does not go through
      yy_get_next_buffer / yyrestart passes a take.
+      The section-3 definition of yyless of the cpp skeleton is checked where the probes expand it (a helper in section 3):
+     any function outside the skeleton that contains the restore shape is treated as such an expansion (yyless-section3).
+R1(d) every take reads the byte it saves in yy_hold_char before the NUL terminator is stored at that position.
 R1(c) functions that discard the text (yypop_buffer_state, yy_flush_buffer, yyrestart) take on every path to the
      return except on the edges that say "no current buffer" / "not the current buffer".
      a6  inside the actions a restore writes through the pointer local as the take left it (no assignment of the local
@@ -154,12 +157,33 @@ def _site(sc, lex, x, sw, eob, hdr):
 
 EDITORS = (('UNPUT', 'yyunput'), ('INPUT', 'yyinput'), ('LESS', 'yyless'), ('SWITCH', 'yy_switch_to_buffer'), ('PUSH', 'yypush_buffer_state'))
 
+def user_expansions(sc):
+    """functions that are not part of the skeleton (no role) and write yy_hold_char or yy_c_buf_p: user code of section 3
+    into which the second definition of yyless (cpp skeleton, "works in section 3 code") has been expanded"""
+    k = id(sc)
+    if k not in _ux:
+        out = []
+        for f in sc.mod.functions.values():
+            # the skeleton's own functions are yy* (any prefix is mapped back to yy) or members of the C++ lexer class
+            if fn_role(f.name) is not None or not f.blocks or norm(f.name).startswith('yy') or f.name.startswith('_Z'): continue
+            a = sc.fa(f)
+            if a.cell_stores('HOLD') or a.cell_stores('CBUFP'): out.append(f)
+        _ux.clear(); _ux[k] = out
+    return _ux[k]
+_ux = {}
+
 def r1b(ctx, sc):
     rep = ctx.rep; v = sc.v; n = 0
-    for role, nm in EDITORS:
-        fns = sc.fns(role)
+    s3 = user_expansions(sc)
+    if not s3 and v.backend in ('nr', 'r') and 's3less' in v.feats:
+        rep.broken('%s: the probe has a section-3 helper that calls yyless() but no function outside the skeleton writes yy_hold_char / yy_c_buf_p' % v.name)
+    for role, nm in EDITORS + (('S3', 'yyless-section3'),):
+        fns = s3 if role == 'S3' else sc.fns(role)
         if not fns:
-            c03.vac(rep, v, 'C08.R1b: no %s function in this variant (%s)' % (nm, 'yyless is a macro in the cpp skeleton; its in-action expansion is covered by a4' if role == 'LESS' else 'disabled by a noyy* option'))
+            if role == 'S3':
+                c03.vac(rep, v, 'C08.R1b: no section-3 expansion of yyless in this variant (%s)' % ('yyless is a function in the c99/go skeletons' if v.backend in ('c99', 'go') else 'C++ back end / probe without the section-3 helper'))
+            else:
+                c03.vac(rep, v, 'C08.R1b: no %s function in this variant (%s)' % (nm, 'yyless is a macro in the cpp skeleton; its in-action expansion is covered by a4, its section-3 expansion by yyless-section3' if role == 'LESS' else 'disabled by a noyy* option'))
             continue
         for fn in fns:
             a = sc.fa(fn); cfg = sc.prog.cfg(fn)
@@ -171,7 +195,9 @@ def r1b(ctx, sc):
                 rep.fail('C08.R1', k0 + 'restore', fwhere(fn), '%s edits the buffer but never puts the hold character back [variant %s]' % (nm, v.name), variant=v.describe())
                 continue
             # b1: a restore dominates every other byte access and every store of the saved position
-            acc = [x for x in a.byte_loads() + a.byte_stores() if x not in R] + a.cell_stores('BUFPOS')
+            #     (reads of the token text itself - addresses derived from yytext_ptr only, e.g. the yylineno loop of yyless -
+            #     are what the terminator is for and are not constrained)
+            acc = [x for x in a.byte_loads() if a.ptr_cells(x.ops[0]) != {'TEXT'}] + [x for x in a.byte_stores() if x not in R] + a.cell_stores('BUFPOS')
             bad = [x for x in acc if not any(cfg.ins_dominates(r_, x) and r_ is not x for r_ in R)]
             if bad:
                 bad.sort(key=lambda x: (fn.blocks.index(x.blk), x.idx))
@@ -192,6 +218,51 @@ def r1b(ctx, sc):
                          witness=witness(cfg, bad[0], bad[1], avoid=av), variant=v.describe())
             else:
                 rep.ok('C08.R1', '%s %s b2: every return after the restore passes a take (%s)' % (v.name, fn.name, ','.join(str(t.line) for t in T)))
+    return n
+
+# ---------------------------------------------------------------- R1(d)
+
+def r1d(ctx, sc):
+    """every take reads the byte it saves in yy_hold_char before the NUL terminator is written to that position: on no
+    path does a store of the constant 0 through a pointer reach the load that feeds yy_hold_char through the same pointer
+    (same root cell/local, same constant offset) unless the pointer is re-assigned or the byte is restored in between.
+    Otherwise the hold character is the terminator itself and the next restore writes a NUL into the text."""
+    rep = ctx.rep; v = sc.v; n = 0
+    s3 = {f.name for f in user_expansions(sc)}
+    for fn in sc.mod.functions.values():
+        if not fn.blocks: continue
+        a = sc.fa(fn)
+        takes = a.takes()
+        if not takes: continue
+        cfg = sc.prog.cfg(fn)
+        zeros = []
+        for z in a.byte_stores():
+            if z.ops[0] == ('int', 0):
+                root, off = a.ptr_root(z.ops[1])
+                if root is not None: zeros.append((z, root, off))
+        rest = a.restores()
+        nm = 'yyless-section3' if fn.name in s3 else norm(fn.name)
+        for t in takes:
+            ld = fn.def_of(t.ops[0])
+            root, off = a.ptr_root(ld.ops[0])
+            n += 1
+            key = 'C08.R1:%s:%s:hold-char-read-before-terminator' % (skel(v), nm)
+            if root is None:
+                rep.ok('C08.R1', '%s %s d: take@%s reads through a computed position (no terminator through the same pointer)' % (v.name, fn.name, t.line))
+                continue
+            if root[0] == 'local': kills = a.local_stores(root[1])
+            else: kills = a.cell_stores(root[1])
+            kills = kills + [r_ for r_ in rest if a.ptr_root(r_.ops[1])[0] == root]
+            bad = None
+            for z, zr, zo in zeros:
+                if zr != root or zo != off: continue
+                if ld in cfg.reach(z, avoid=kills): bad = z; break
+            if bad is not None:
+                rep.fail('C08.R1', key, where(t), '%s%s stores the NUL terminator (line %s) before it reads the byte at the same position into yy_hold_char (line %s): the hold character is always NUL and the next scan puts a NUL into the text [variant %s]' % (
+                    nm, ' (expanded in %s)' % fn.name if fn.name in s3 else '', bad.line, t.line, v.name),
+                    witness=witness(cfg, bad, ld, avoid=kills), variant=v.describe())
+            else:
+                rep.ok('C08.R1', '%s %s d: take@%s reads the byte before any terminator is stored there' % (v.name, fn.name, t.line))
     return n
 
 # ---------------------------------------------------------------- R1(c)
@@ -294,9 +365,18 @@ def r2(ctx, sc):
             rr = cfg.reach_from_block(below, avoid=lwb)
             if s0 in rr: bad = (br, below); break
         shifts = [br for br, below in LW if any(m in cfg.reach_from_block(below, avoid=lwb) for m in a.move_events())]
+        # the extent of the shift is computed from the scanner's live count (the register yy_get_next_buffer maintains and
+        # the sentinels are placed by), not from the copy saved in the buffer object
+        stale = None
+        for L in a.locals:
+            for st in a.local_stores(L):
+                g = c04.gep_parts(sc, fn, st.ops[0])
+                if g and g[1] == 'CHBUF' and isinstance(g[2], tuple) and cell_role(g[2]) == 'NCHARS' and c04.saved_in_buffer(g[2]): stale = st
         if bad:
             rep.fail('C08.R2', k0 + 'overflow-is-fatal', where(bad[0]), 'in yyunput the below-low-water edge of the test at line %s reaches the push-back store without a second test whose failure is fatal [variant %s]' % (bad[0].line, v.name),
                      witness=witness(cfg, first_ins(bad[1]), s0, avoid=lwb, include_start=True), variant=v.describe())
+        elif stale is not None:
+            rep.fail('C08.R2', k0 + 'shift-extent-from-register', where(stale), 'in yyunput the shift is bounded by &yy_ch_buf[<buffer object>->yy_n_chars ...]: the saved copy is stale after a refill, so text (or the sentinels) read since then is not moved [variant %s]' % v.name, variant=v.describe())
         elif not shifts:
             rep.fail('C08.R2', k0 + 'shift', where(lwb[0]), 'in yyunput no low-water edge shifts the text up to make room [variant %s]' % v.name, variant=v.describe())
         else:
@@ -418,7 +498,7 @@ def run(ctx):
     rep = ctx.rep
     vs = [v for v in ctx.variants() if c03.usable(v)]
     rep.require(len(vs) >= 60, 'only %d scanner variants compiled to IR' % len(vs))
-    tot = {'R1a': 0, 'R1b': 0, 'R1c': 0, 'R2': 0, 'R4': 0, 'R5': 0, 'R6': 0}
+    tot = {'R1a': 0, 'R1b': 0, 'R1c': 0, 'R1d': 0, 'R2': 0, 'R4': 0, 'R5': 0, 'R6': 0}
     backends = set()
     for v in vs:
         sc = Scanner(v)
@@ -428,6 +508,7 @@ def run(ctx):
         tot['R1a'] += r1a(ctx, sc, lex)
         tot['R1b'] += r1b(ctx, sc)
         tot['R1c'] += r1c(ctx, sc)
+        tot['R1d'] += r1d(ctx, sc)
         tot['R4'] += r4(ctx, sc, lex)
         tot['R5'] += r5(ctx, sc, lex)
         tot['R6'] += r6(ctx, sc, lex)
@@ -439,6 +520,7 @@ def run(ctx):
     for k, n in tot.items(): rep.setcount('instances_' + k, n)
     rep.require(tot['R1a'] >= 9 * len(vs), 'C08.R1(a) matched %d instances, at least 9 per variant expected (3 + one per restore + one per take in yylex)' % tot['R1a'])
     rep.require(tot['R1b'] >= 8 * len(vs) - 16, 'C08.R1(b) matched %d instances, 8..10 per variant expected (2 per editing entry point)' % tot['R1b'])
+    rep.require(tot['R1d'] >= 6 * len(vs), 'C08.R1(d) matched %d takes, at least 6 per variant expected' % tot['R1d'])
     rep.require(tot['R1c'] >= 3 * len(vs), 'C08.R1(c) matched %d instances, 3 per variant expected' % tot['R1c'])
     rep.require(tot['R2'] >= len(vs) - 4, 'C08.R2 matched %d instances, one per variant with yyunput expected' % tot['R2'])
     rep.require(tot['R4'] >= 3 * len(vs), 'C08.R4 matched %d instances, 2 arms in yylex + 2 in yyinput per variant expected' % tot['R4'])
@@ -448,7 +530,6 @@ def run(ctx):
     rep.floor('C08.R4', 1, 'see instances_R4'); rep.floor('C08.R5', 1, 'see instances_R5'); rep.floor('C08.R6', 1, 'see instances_R6')
     rep.undecided += ['yymore length arithmetic (yy_more_len / yy_more_offset) and "consumed exactly once"',
                       'the state after the user\'s yywrap() and on the end-of-file arm of yy_get_next_buffer (a path-insensitive join cannot see it)',
-                      'the second expansion of yyless (section-3 code of the cpp skeleton): only instantiated when user code in section 3 calls yyless',
                       'line-count effects of unput/input (C09.R3)']
     rep.assumptions += ['clang -O0 IR of the instantiated skeleton is a faithful rendering of the generated C/C++ source',
                         'user actions leave yy_hold_char alone and reach the buffer only through the documented entry points']
